@@ -239,6 +239,9 @@ func genLayout(t *rapid.T, nested bool) Layout {
 	ngp := rapid.IntRange(0, 3).Draw(t, "ngopath")
 	for i := 0; i < ngp; i++ {
 		g := LGopath{Remote: genRemoteRoot(t, fmt.Sprintf("gopath%d", i))}
+		if i > 0 && oneIn(t, 3, "siblingGopath") {
+			g.Remote = l.Gopaths[0].Remote + rapid.SampledFrom([]string{"2", "x", "-old"}).Draw(t, "gpSuffix") + fmt.Sprint(i)
+		}
 		seen := map[string]bool{}
 		for j, k := 0, rapid.IntRange(0, 3).Draw(t, "nsrc"); j < k; j++ {
 			f := rapid.SampledFrom(fsHosts).Draw(t, "host") + "/" + genRelPath(t, 2)
@@ -264,6 +267,10 @@ func genLayout(t *rapid.T, nested bool) Layout {
 		m := LModule{Dir: fmt.Sprintf("m%d", i), ModPath: rapid.SampledFrom(fsHosts).Draw(t, "modpath")}
 		for j, k := 0, rapid.IntRange(0, 3).Draw(t, "moddepth"); j < k; j++ {
 			m.Dir += "/" + rapid.SampledFrom(fsElems).Draw(t, "moddir")
+		}
+		if i > 0 && oneIn(t, 3, "siblingPrefix") {
+			// a sibling directory whose name merely starts with another root's name
+			m.Dir = l.Modules[0].Dir + rapid.SampledFrom([]string{"2", "x", "-old", "_"}).Draw(t, "siblingSuffix") + fmt.Sprint(i)
 		}
 		m.Loose = oneIn(t, 4, "loose")
 		seen := map[string]bool{}
